@@ -70,7 +70,7 @@ def case_center(run, i):
     for est in EST:
         for by_chrom in (True, False):
             skip_low = bool(rng.integers(0, 2))
-            cna = make_cna(cols)
+            cna = make_cna(cols, odd=(i % 3 == 1))
             try:
                 cna.center_all(est, by_chrom, skip_low, False, par)
             except Exception:
@@ -109,7 +109,7 @@ def case_sex(run, i):
         del cols["weight"]
     truth = {"female": female, "male_ref": male_ref, "has_y": has_y, "weights": weights, "sd": sd}
     run.begin_case("sex", i, cls=f"sex:{'F' if female else 'M'}:{'maleref' if male_ref else 'femaleref'}", sex=truth)
-    cna = make_cna(cols, meta={"sample_id": "S", "filename": "S.cnr"})
+    cna = make_cna(cols, meta={"sample_id": "S", "filename": "S.cnr"}, odd=(i % 3 == 1))
     for fn in (lambda: cna.guess_xx(male_ref, None, False), lambda: K.do_sex([cna], male_ref, None),
                lambda: cna.shift_xx(male_ref, None), lambda: cna.shift_xx(male_ref, female), lambda: cna.shift_xx(not male_ref, female),
                lambda: cna.expect_flat_log2(male_ref), lambda: cna.expect_flat_log2(not male_ref)):
